@@ -36,12 +36,16 @@ package authf
 //@   let k4 = decStrK(src, q3, 4, false, d0)
 //@   let q4 = (k4 == 0 ? decStrP(src, q3, 4, d0) : seekP(src, q3, 4, d0))
 //@   let ok4 = ok3 && (k4 == 0 || (k4 == 1 && (seekK(src, q3, 4, d0) == 2 || (seekK(src, q3, 4, d0) == 1 && seekCanon(src, q3, 4, d0)))))
-//@   opaque [C04] *
+//@   opaque [C04,C06] *
 //@   perreturn
 //@   ensures [C04] (ok1 && err == nil) ==> st.SObjName == (k1 == 0 ? decStrV(src, q0, 1, d0) : old(st.SObjName))
+//@   ensures [C06] (k1 == 2) ==> err != nil
 //@   ensures [C04] (ok2 && err == nil) ==> st.SAccessKey == (k2 == 0 ? decStrV(src, q1, 2, d0) : old(st.SAccessKey))
+//@   ensures [C06] (ok1 && k2 == 2) ==> err != nil
 //@   ensures [C04] (ok3 && err == nil) ==> st.SSecretKey == (k3 == 0 ? decStrV(src, q2, 3, d0) : old(st.SSecretKey))
+//@   ensures [C06] (ok2 && k3 == 2) ==> err != nil
 //@   ensures [C04] (ok4 && err == nil) ==> st.SHashSecretKey2 == (k4 == 0 ? decStrV(src, q3, 4, d0) : old(st.SHashSecretKey2))
+//@   ensures [C06] (ok3 && k4 == 2) ==> err != nil
 //@   ensures [C04] ok4 ==> (err == nil && readBuf.buf.i == q4)
 //@   safety [C05]
 //
@@ -67,6 +71,20 @@ package authf
 //@   perreturn
 //@   modifies buf.buf.bytes
 //@   ensures [C03] err == nil && buf.buf.bytes == pre
+//@   safety [C03]
+//
+//@ func (*BasicAuthInfo).WriteBlock
+//@   requires st != nil && validB(buf) && len(st.SObjName) < 4294967296 && len(st.SAccessKey) < 4294967296 && len(st.SSecretKey) < 4294967296 && len(st.SHashSecretKey2) < 4294967296
+//@   let e0 = buf.buf.bytes ++ head(StructBegin, tag)
+//@   let e1 = (st.SObjName != "" ? e0 ++ encString(1, st.SObjName) : e0)
+//@   let e2 = (st.SAccessKey != "" ? e1 ++ encString(2, st.SAccessKey) : e1)
+//@   let e3 = (st.SSecretKey != "" ? e2 ++ encString(3, st.SSecretKey) : e2)
+//@   let e4 = (st.SHashSecretKey2 != "" ? e3 ++ encString(4, st.SHashSecretKey2) : e3)
+//@   let pre = e4 ++ head(StructEnd, 0)
+//@   opaque head encInt8 encInt16 encInt32 encInt64 encString encBool
+//@   perreturn
+//@   modifies buf.buf.bytes
+//@   ensures [C03] result == nil && buf.buf.bytes == pre
 //@   safety [C03]
 //
 //@ func (*BasicAuthPackage).ResetDefault
@@ -101,13 +119,18 @@ package authf
 //@   let k5 = decStrK(src, q4, 5, false, d0)
 //@   let q5 = (k5 == 0 ? decStrP(src, q4, 5, d0) : seekP(src, q4, 5, d0))
 //@   let ok5 = ok4 && (k5 == 0 || (k5 == 1 && (seekK(src, q4, 5, d0) == 2 || (seekK(src, q4, 5, d0) == 1 && seekCanon(src, q4, 5, d0)))))
-//@   opaque [C04] *
+//@   opaque [C04,C06] *
 //@   perreturn
 //@   ensures [C04] (ok1 && err == nil) ==> st.SObjName == (k1 == 0 ? decStrV(src, q0, 1, d0) : old(st.SObjName))
+//@   ensures [C06] (k1 == 2) ==> err != nil
 //@   ensures [C04] (ok2 && err == nil) ==> st.SAccessKey == (k2 == 0 ? decStrV(src, q1, 2, d0) : old(st.SAccessKey))
+//@   ensures [C06] (ok1 && k2 == 2) ==> err != nil
 //@   ensures [C04] (ok3 && err == nil) ==> st.ITime == (k3 == 0 ? decIntV(src, q2, 3, d0) : old(st.ITime))
+//@   ensures [C06] (ok2 && k3 == 2) ==> err != nil
 //@   ensures [C04] (ok4 && err == nil) ==> st.SHashMethod == (k4 == 0 ? decStrV(src, q3, 4, d0) : "sha1")
+//@   ensures [C06] (ok3 && k4 == 2) ==> err != nil
 //@   ensures [C04] (ok5 && err == nil) ==> st.SSignature == (k5 == 0 ? decStrV(src, q4, 5, d0) : old(st.SSignature))
+//@   ensures [C06] (ok4 && k5 == 2) ==> err != nil
 //@   ensures [C04] ok5 ==> (err == nil && readBuf.buf.i == q5)
 //@   safety [C05]
 //
@@ -136,6 +159,21 @@ package authf
 //@   ensures [C03] err == nil && buf.buf.bytes == pre
 //@   safety [C03]
 //
+//@ func (*BasicAuthPackage).WriteBlock
+//@   requires st != nil && validB(buf) && len(st.SObjName) < 4294967296 && len(st.SAccessKey) < 4294967296 && len(st.SHashMethod) < 4294967296 && len(st.SSignature) < 4294967296
+//@   let e0 = buf.buf.bytes ++ head(StructBegin, tag)
+//@   let e1 = e0 ++ encString(1, st.SObjName)
+//@   let e2 = e1 ++ encString(2, st.SAccessKey)
+//@   let e3 = e2 ++ encInt64(3, st.ITime)
+//@   let e4 = (st.SHashMethod != "sha1" ? e3 ++ encString(4, st.SHashMethod) : e3)
+//@   let e5 = (st.SSignature != "" ? e4 ++ encString(5, st.SSignature) : e4)
+//@   let pre = e5 ++ head(StructEnd, 0)
+//@   opaque head encInt8 encInt16 encInt32 encInt64 encString encBool
+//@   perreturn
+//@   modifies buf.buf.bytes
+//@   ensures [C03] result == nil && buf.buf.bytes == pre
+//@   safety [C03]
+//
 //@ func (*TokenKey).ResetDefault
 //@   requires st != nil
 //@   pure
@@ -161,11 +199,14 @@ package authf
 //@   let k3 = decStrK(src, q2, 3, true, d0)
 //@   let q3 = (k3 == 0 ? decStrP(src, q2, 3, d0) : seekP(src, q2, 3, d0))
 //@   let ok3 = ok2 && (k3 == 0 || (k3 == 1 && (seekK(src, q2, 3, d0) == 2 || (seekK(src, q2, 3, d0) == 1 && seekCanon(src, q2, 3, d0)))))
-//@   opaque [C04] *
+//@   opaque [C04,C06] *
 //@   perreturn
 //@   ensures [C04] (ok1 && err == nil) ==> st.SApplication == (k1 == 0 ? decStrV(src, q0, 1, d0) : old(st.SApplication))
+//@   ensures [C06] (k1 == 2) ==> err != nil
 //@   ensures [C04] (ok2 && err == nil) ==> st.SServer == (k2 == 0 ? decStrV(src, q1, 2, d0) : old(st.SServer))
+//@   ensures [C06] (ok1 && k2 == 2) ==> err != nil
 //@   ensures [C04] (ok3 && err == nil) ==> st.SObjName == (k3 == 0 ? decStrV(src, q2, 3, d0) : old(st.SObjName))
+//@   ensures [C06] (ok2 && k3 == 2) ==> err != nil
 //@   ensures [C04] ok3 ==> (err == nil && readBuf.buf.i == q3)
 //@   safety [C05]
 //
@@ -190,6 +231,19 @@ package authf
 //@   perreturn
 //@   modifies buf.buf.bytes
 //@   ensures [C03] err == nil && buf.buf.bytes == pre
+//@   safety [C03]
+//
+//@ func (*TokenKey).WriteBlock
+//@   requires st != nil && validB(buf) && len(st.SApplication) < 4294967296 && len(st.SServer) < 4294967296 && len(st.SObjName) < 4294967296
+//@   let e0 = buf.buf.bytes ++ head(StructBegin, tag)
+//@   let e1 = e0 ++ encString(1, st.SApplication)
+//@   let e2 = e1 ++ encString(2, st.SServer)
+//@   let e3 = e2 ++ encString(3, st.SObjName)
+//@   let pre = e3 ++ head(StructEnd, 0)
+//@   opaque head encInt8 encInt16 encInt32 encInt64 encString encBool
+//@   perreturn
+//@   modifies buf.buf.bytes
+//@   ensures [C03] result == nil && buf.buf.bytes == pre
 //@   safety [C03]
 //
 //@ func (*AuthRequest).ResetDefault
